@@ -11,6 +11,7 @@ def bump(v):
     if isinstance(v, bool): return not v
     if isinstance(v, int): return v + 1
     if isinstance(v, str): return v + "x"
+    if isinstance(v, dict): return dict(v, dig=[(v["dig"][0] % 9) + 1] + v["dig"][1:]) if "dig" in v else v
     if isinstance(v, list): return v + [1] if (not v or isinstance(v[0], int)) else v[:-1]
     return v
 FAMS = [
@@ -27,6 +28,9 @@ FAMS = [
  ("dec",   ["dec", "-per", 1], "Trace_Decimal", "Trace_Decimal.cfg", {}, "Fmt", "text", lambda e: True),
  ("dsn",   ["dsn", "-count", 30, "-maxlen", 2], "Trace_Dsn", "Trace_Dsn.cfg", {}, "RT", "out", lambda e: True),
  ("wire",  ["wire", "-count", 2], "Trace_Wire", "Trace_Wire.cfg", {"JUDGE":"C06"}, "Pkg", "wbytes", lambda e: e["w"]=="ok"),
+ ("dt-c05", ["dt"], "Trace_DataTypes", "Trace_DataTypes.cfg", {"JUDGE":"C05"}, "RT", "b", lambda e: len(e["b"])>0 and e["t"] in ("INT8","MONEY","DATETIME","BIGDATETIMEN","NUMN","FLT8")),
+ ("dt-c04", ["dt"], "Trace_DataTypes", "Trace_DataTypes.cfg", {"JUDGE":"C04"}, "Pkg", "v2", lambda e: e["v2"].get("k")=="int"),
+ ("dt-cal", ["dt"], "Trace_DataTypes", "Trace_DataTypes.cfg", {"JUDGE":"C05"}, "Cal", "b", lambda e: True),
 ]
 
 def main():
